@@ -278,3 +278,17 @@ func init() {
 		return CV{ctx.ex.f.App("utils.serialize_u64_", SStr, args[0].t), types.Typ[types.String]}
 	}
 }
+
+func init() {
+	// LegacyDec.ApproxRoot(n): trusted range fact only - the n-th root of a value in [0,1] lies in [0,1]
+	reg("(cosmossdk.io/math.LegacyDec).ApproxRoot", func(fr *Frame, st *State, c *ssa.CallCommon, a []*Term) ([]*Term, bool) {
+		ex := fr.ex
+		f := ex.f
+		r := f.Fresh("approxroot", SInt)
+		e := f.Fresh("approxroot.err", SInt)
+		one := ex.decP()
+		ex.assume(st, f.Ge(e, f.Int(0)))
+		ex.assume(st, f.Implies(f.And(f.Ge(a[0], f.Int(0)), f.Le(a[0], one)), f.And(f.Ge(r, f.Int(0)), f.Le(r, one))))
+		return []*Term{r, e}, true
+	})
+}
